@@ -66,6 +66,16 @@ def _po2_dom(vals):
   return f
 
 
+def _max_po2_dom(full):
+  # 0 clips the scales of the 1-bit/4-bit formats on the probes, -5 those of
+  # the 8-bit formats; never below min_po2_exponent
+  if full.get("alpha") != "auto_po2":
+    return [None]
+  if full.get("min_po2_exponent") is not None:
+    return [None, 0]
+  return [None, 0, -5]
+
+
 def _const(vals):
   def f(full):
     return vals
@@ -101,7 +111,7 @@ SPEC = {
         ("use_variables", _const([False, True])),
         ("elements_per_scale", _eps_dom),
         ("min_po2_exponent", _po2_dom([None, -2])),
-        ("max_po2_exponent", _po2_dom([None, 0])),
+        ("max_po2_exponent", _max_po2_dom),
         ("post_training_scale",
          lambda full: [None, ND0, ND4] if _is_str(full.get("alpha")) else [None]),
     ],
@@ -116,7 +126,7 @@ SPEC = {
          lambda full: [None] if _is_str(full.get("alpha")) else [None, 0.5]),
         ("use_stochastic_rounding",
          lambda full: [False, True] if _is_str(full.get("alpha")) else [False]),
-        ("number_of_unrolls", _const([5, 2])),
+        ("number_of_unrolls", _const([5, 1])),
     ],
     "stochastic_ternary": [
         ("alpha", _const([None, "auto", "auto_po2", 2.0])),
@@ -124,7 +134,7 @@ SPEC = {
          lambda full: [None] if _is_str(full.get("alpha")) else [None, 0.5]),
         ("temperature", _const([8.0, 2.0])),
         ("use_real_sigmoid", _const([True, False])),
-        ("number_of_unrolls", _const([5, 2])),
+        ("number_of_unrolls", _const([5, 1])),
     ],
     "binary": [
         ("alpha", _const(ALPHAS)),
@@ -133,7 +143,7 @@ SPEC = {
         ("use_stochastic_rounding", _const([False, True])),
         ("elements_per_scale", _eps_dom),
         ("min_po2_exponent", _po2_dom([None, -2])),
-        ("max_po2_exponent", _po2_dom([None, 0])),
+        ("max_po2_exponent", _max_po2_dom),
     ],
     "stochastic_binary": [
         ("alpha", _const(ALPHAS)),
@@ -633,27 +643,48 @@ def analyse(cls, kw, route, evaluate, observe_direct, is_known,
 # deterministic enumerations
 
 
+# extra enabling contexts for the one-option-at-a-time enumeration: options
+# that are only observable next to another one (is_quantized_clip /  use_ste
+# need qnoise_factor < 1, relu_upper_bound needs is_quantized_clip=False; the
+# use_ste contexts are configurations where the two formulas differ in the
+# last ulp on the probes)
+EXTRA_CONTEXTS = {
+    "quantized_bits": [{"alpha": 2.0, "qnoise_factor": 0.5}],
+    "quantized_relu": [{"qnoise_factor": 0.5}, {"is_quantized_clip": False},
+                       {"qnoise_factor": 0.5, "use_stochastic_rounding": True,
+                        "bits": 4, "integer": 1}],
+    "quantized_po2": [{"bits": 4, "qnoise_factor": 0.5}],
+    "quantized_relu_po2": [{"negative_slope": 0.25, "bits": 4,
+                            "qnoise_factor": 0.5}],
+    "stochastic_ternary": [{"alpha": "auto", "temperature": 2.0}],
+}
+
+
 def _contexts(cls):
   doms = dict(SPEC[cls])
+  out = [{}]
   if "alpha" in doms:
-    return [({} if a is None else {"alpha": a}) for a in doms["alpha"]({})]
-  return [{}]
+    out = [({} if a is None else {"alpha": a}) for a in doms["alpha"]({})]
+  return out + EXTRA_CONTEXTS.get(cls, [])
 
 
 def singles(cls):
-  """Every non-default value of every option on top of every alpha context."""
+  """Every non-default value of every option on top of every context.
+  -> list of (kw, option_name or None)."""
   out, seen = [], set()
   for ctx in _contexts(cls):
-    for kw in [ctx] + [dict(ctx, **{p: v})
-                       for p, dom in SPEC[cls] if p != "alpha"
-                       for v in _all_values(cls, p)]:
+    for kw, o in [(ctx, None)] + [(dict(ctx, **{p: v}), p)
+                                  for p, dom in SPEC[cls] if p not in ctx
+                                  for v in _all_values(cls, p)]:
       if not admissible(cls, kw):
         continue
       kw = nondefault(cls, kw)
+      if o is not None and o not in kw:
+        continue
       k = jkey(kw)
       if k not in seen:
         seen.add(k)
-        out.append(kw)
+        out.append((kw, o))
   return out
 
 
@@ -772,21 +803,25 @@ def lattice(tier):
     return _lat_cache[tier]
   cfgs, seen, info = [], set(), {}
   for cls in CLASSES:
-    lst = list(singles(cls))
+    sg = singles(cls)
+    lst = [(kw, o) for kw, o in sg]
     pw, npairs, left = pairwise(cls)
-    lst += pw
-    info[cls] = {"singles": len(lst) - len(pw), "pairwise_cases": len(pw),
+    lst += [(kw, None) for kw in pw]
+    info[cls] = {"singles": len(sg), "pairwise_cases": len(pw),
                  "pairs": npairs, "pairs_uncovered": left}
     if tier == "thorough":
       fp = full_product(cls)
       info[cls]["full_product"] = None if fp is None else len(fp)
       if fp is not None:
-        lst += fp
-    for kw in lst:
+        lst += [(kw, None) for kw in fp]
+    for kw, o in lst:
       k = cls + jkey(kw)
       if k not in seen:
         seen.add(k)
-        cfgs.append({"cls": cls, "kw": kw})
+        c = {"cls": cls, "kw": kw}
+        if o is not None:
+          c["single"] = o
+        cfgs.append(c)
   _lat_cache[tier] = (cfgs, info)
   return _lat_cache[tier]
 
